@@ -807,6 +807,70 @@ namespace vt
       }
    };
 
+   // actions for if_apply< R, As... > / apply< As... > / apply0< As... >: these are called by the rule itself, not through
+   // the control, so they log themselves.  ia_v: void; ia_b: bool, false iff (len + N) % 3 == 0 (apply) / N % 3 == 0 (apply0)
+   template< typename AI >
+   void log_ia( int n, const AI& ai, int v )
+   {
+      Global& G = g();
+      if( !G.tracing )
+         return;
+      const auto p = ai.position();
+      Writer& w = G.tr;
+      w.s( "{\"k\":\"ia\"" );
+      w.kv( "n", n );
+      w.kv( "b", (long long)p.byte );
+      w.kv( "l", (long long)p.line );
+      w.kv( "c", (long long)p.column );
+      w.kv( "o", ai.begin() - G.base );
+      w.kv( "eo", ai.end() - G.base );
+      w.kv( "v", v );
+      w.s( "}\n" );
+   }
+   inline void log_i0( int n, int v )
+   {
+      Global& G = g();
+      if( !G.tracing )
+         return;
+      Writer& w = G.tr;
+      w.s( "{\"k\":\"i0\"" );
+      w.kv( "n", n );
+      w.kv( "v", v );
+      w.s( "}\n" );
+   }
+   template< int N >
+   struct ia_v
+   {
+      template< typename AI, typename... St >
+      static void apply( const AI& ai, St&&... /*unused*/ )
+      {
+         log_ia( N, ai, 0 );
+      }
+      template< typename... St >
+      static void apply0( St&&... /*unused*/ )
+      {
+         log_i0( N, 0 );
+      }
+   };
+   template< int N >
+   struct ia_b
+   {
+      template< typename AI, typename... St >
+      static bool apply( const AI& ai, St&&... /*unused*/ )
+      {
+         const bool r = ( ( ai.size() + std::size_t( N ) ) % 3 ) != 0;
+         log_ia( N, ai, r ? 1 : 2 );
+         return r;
+      }
+      template< typename... St >
+      static bool apply0( St&&... /*unused*/ )
+      {
+         const bool r = ( N % 3 ) != 0;
+         log_i0( N, r ? 1 : 2 );
+         return r;
+      }
+   };
+
    template< int F >
    struct afam
    {
